@@ -6,6 +6,7 @@ set iteration order is the hash-randomised one).
 """
 import itertools
 from fractions import Fraction
+from decimal import Decimal
 from common import Names, num_str
 
 NAMES = Names(prefix='k')
@@ -14,12 +15,49 @@ NAMES = Names(prefix='k')
 # ------------------------------------------------------------------------------------------------
 # encoding
 
-def votes_dict(case, key='votes'):
-    """protocol -> the dict given to votelib (ints where integral, Fractions otherwise)"""
-    out = {}
-    for a, b, s in case[key]:
+NTYPES = ['decimal', 'decimal_long', 'float_dyadic', 'float_nd', 'fraction_all']
+
+
+def typed(f, ntype):
+    """the Python number handed to votelib for the exact protocol value f (a Fraction) under the numeric type of the case;
+    the conversion is exact by construction of the generators (checked)"""
+    if ntype in ('decimal', 'decimal_long'):
+        v = Decimal(f.numerator) / Decimal(f.denominator)
+        if Fraction(v) != f:
+            raise ValueError(f'{f} is not a finite decimal')
+        return v
+    if ntype in ('float_dyadic', 'float_nd', 'float'):
+        v = f.numerator / f.denominator
+        if Fraction(v) != f:
+            raise ValueError(f'{f} is not a float')
+        return v
+    if ntype == 'fraction_all':          # also integral and zero counts as Fraction objects (Fraction(0) is falsy)
+        return f
+    return int(f) if f.denominator == 1 else f
+
+
+def retype_votes(votes, ntype):
+    """map the counts of a pairwise dictionary by a strictly monotone exact scaling so that every count is a value of the
+    numeric type (ties stay ties, zeros stay zero, wins stay wins); returns the new protocol list"""
+    k = {'decimal': Fraction(5, 4), 'decimal_long': Fraction(10000001, 10000000), 'float_dyadic': Fraction(3, 4),
+         'fraction_all': Fraction(1)}.get(ntype)
+    out = []
+    for a, b, s in votes:
         f = Fraction(s)
-        out[(NAMES.n(a), NAMES.n(b))] = int(f) if f.denominator == 1 else f
+        if ntype == 'float_nd':
+            f = Fraction(float(f) * 1.4)          # non-dyadic: the exact value of the double nearest to 1.4 * count
+        else:
+            f = f * k
+        out.append([a, b, num_str(f)])
+    return out
+
+
+def votes_dict(case, key='votes'):
+    """protocol -> the dict given to votelib (ints where integral, Fractions otherwise; `_ntype` selects Decimal / float)"""
+    out = {}
+    nt = case.get('_ntype')
+    for a, b, s in case[key]:
+        out[(NAMES.n(a), NAMES.n(b))] = typed(Fraction(s), nt)
     return out
 
 
@@ -154,9 +192,27 @@ def random_pairwise(rng, m, kind):
     return from_states(m, states, rng, vals)
 
 
-def random_profile(rng, m, n_ballots=None):
-    """ranked profile over ids 0..m-1: truncated ballots, shared ranks (sorted id lists)"""
+WTYPES = ['int', 'fraction', 'bigint', 'decimal', 'float']
+
+
+def random_weight(rng, wtype, base=None):
+    if wtype == 'fraction':
+        return Fraction(rng.randint(1, 12), rng.choice([2, 3, 4, 7]))
+    if wtype == 'bigint':
+        return (base or 10 ** 18) + rng.choice([0, 0, 1, 1, 2, 3])           # near and exact ties at a large magnitude
+    if wtype == 'decimal':
+        return Fraction(rng.randint(1, 40), rng.choice([2, 4, 5, 10])) if rng.random() < 0.6 else \
+            Fraction(rng.randint(1, 5) * 10 ** 7 + rng.randint(0, 3), 10 ** 7)
+    if wtype == 'float':
+        return Fraction(rng.randint(1, 20), rng.choice([1, 2, 4, 8]))
+    return rng.choice([1, 1, 2, 2, 3, 4, 5])
+
+
+def random_profile(rng, m, n_ballots=None, wtype='int', max_shared=3):
+    """ranked profile over ids 0..m-1: truncated ballots, shared ranks (sorted id lists) of up to max_shared candidates;
+    weights of the numeric type wtype (the case carries it as `_wtype`)"""
     n_ballots = n_ballots or rng.randint(1, 6)
+    base = rng.choice([10 ** 9, 2 ** 53, 10 ** 18, 10 ** 30])
     prof = {}
     for _ in range(n_ballots):
         k = rng.randint(1, m)
@@ -165,33 +221,81 @@ def random_profile(rng, m, n_ballots=None):
         i = 0
         while i < len(chosen):
             if rng.random() < 0.25 and i + 1 < len(chosen):
-                g = rng.randint(2, min(3, len(chosen) - i))
+                g = rng.randint(2, min(max_shared, len(chosen) - i))
                 ballot.append(tuple(sorted(chosen[i:i + g])))
                 i += g
             else:
                 ballot.append(chosen[i])
                 i += 1
         key = tuple(ballot)
-        w = rng.choice([1, 1, 2, 2, 3, 4, 5])
-        prof[key] = prof.get(key, 0) + w
+        prof[key] = prof.get(key, 0) + random_weight(rng, wtype, base)
     return [[[list(it) if isinstance(it, tuple) else it for it in b], num_str(w)] for b, w in prof.items()]
 
 
-def profile_dict(profile):
-    """protocol profile -> votelib ranked votes"""
+def profile_dict(profile, wtype=None):
+    """protocol profile -> votelib ranked votes (weights typed by wtype: 'decimal' -> Decimal, 'float' -> float)"""
     out = {}
     for ballot, s in profile:
         key = tuple(frozenset(NAMES.n(c) for c in it) if isinstance(it, list) else NAMES.n(it) for it in ballot)
-        f = Fraction(s)
-        out[key] = int(f) if f.denominator == 1 else f
+        out[key] = typed(Fraction(s), wtype if wtype in ('decimal', 'float') else None)
     return out
+
+
+def profile_cands(profile):
+    out = []
+    for ballot, _ in profile:
+        for it in ballot:
+            for c in (it if isinstance(it, list) else [it]):
+                if c not in out:
+                    out.append(c)
+    return out
+
+
+def own_pairwise(profile, unranked_at_bottom=True):
+    """pairwise counts of a ranked profile from the definition (independent of votelib's converter): a ballot counts for x over y
+    when it ranks x strictly above y, or — unranked candidates at the bottom — ranks x and not y"""
+    cands = profile_cands(profile)
+    d = {}
+    for ballot, s in profile:
+        w = Fraction(s)
+        pos = {}
+        for r, it in enumerate(ballot):
+            for c in (it if isinstance(it, list) else [it]):
+                pos[c] = r
+        for x in pos:
+            for y in cands:
+                if y == x:
+                    continue
+                if (y in pos and pos[x] < pos[y]) or (y not in pos and unranked_at_bottom):
+                    d[(x, y)] = d.get((x, y), 0) + w
+    return d
+
+
+def profile_features(profile):
+    tags = []
+    cands = profile_cands(profile)
+    if len(cands) >= 6:
+        tags.append('cands_6_7')
+    shared = [it for b, _ in profile for it in b if isinstance(it, list)]
+    if any(len(it) >= 3 for it in shared):
+        tags.append('shared3')
+    single = {it for b, _ in profile for it in b if not isinstance(it, list)}
+    if any(c not in single for c in cands):
+        tags.append('only_in_shared')
+    if any(b and isinstance(b[0], list) for b, _ in profile):
+        tags.append('shared_first')
+    d = own_pairwise(profile)
+    pc = sorted({c for p in d for c in p})
+    if len(pc) >= 4 and len(smith_set(d, pc)) >= 4 and not condorcet_winner(d, pc):
+        tags.append('long_cycle')
+    return tags
 
 
 def profile_to_pairwise(profile, unranked_at_bottom):
     """derive the pairwise dictionary with the REAL converter; insertion order preserved"""
     import votelib.convert
     d = votelib.convert.RankedToCondorcetVotes(unranked_at_bottom=unranked_at_bottom).convert(profile_dict(profile))
-    return [[NAMES.i(a), NAMES.i(b), num_str(c)] for (a, b), c in d.items()]
+    return [[NAMES.i(a), NAMES.i(b), num_str(Fraction(c))] for (a, b), c in d.items()]
 
 
 def exhaustive_pairwise(m, state_names):
